@@ -436,7 +436,9 @@ Fixpoint c07_walk (strict : bool) (tk : trk7) (sc : list (action * obs)) : bool 
       | AReserve _ _ => if k_closed tk then o_code o =? 2 else negb (o_code o =? 2)
       | AExpire => match k_waiting tk with [] => true | _ => negb strict || (o_code o =? 2) end
       | _ => true
-      end in
+      end
+      (* a call that returns, returns a reply or an error: never neither *)
+      && forallb (fun x => let '(_, k, e, _) := x in negb ((k =? 1) && (e =? 0))) (o_ret o) in
     let tk1 :=
       match a with
       | AStart c => if o_code o =? 0 then tk else mkTrk7 (c :: k_inflight tk) (k_waiting tk) (k_cancelled tk) (k_closed tk) (k_replied tk)
